@@ -86,11 +86,22 @@ def check_commit_discipline(prog, rep, prop="C06"):
             for s in ss:
                 n = g.node_of(s.call)
                 good = set(commits)
+                sliced_peers = [x for x in ss if getattr(x, "sliced", False) and x.rows_var == s.rows_var]
+                undecided_slices = False
                 for cn, c in ccommits.items():
-                    if _count_arg_ok(c, s, fi):
+                    r_ = _count_arg_ok(c, s, fi)
+                    if r_ == "one-slice":
+                        if len(sliced_peers) == 1:
+                            good.add(cn)
+                        else:
+                            undecided_slices = True
+                    elif r_:
                         good.add(cn)
                 ok, w = g.must_pass(n, good)
                 cons = f"{s.stmt.kind.upper()} {s.stmt.table} -> exit"
+                if not ok and undecided_slices:
+                    rep.undecided("COMMIT-B", fi.short, cons, f"{len(sliced_peers)} executemany statements write slices of `{s.rows_var}` and one conditional_commit(len({s.rows_var})) counts them: right exactly when the slices are disjoint, which this rule does not decide", s.loc())
+                    continue
                 if ok:
                     rep.ok("COMMIT-B", fi.short, cons, "every path to a normal exit passes conditional_commit(n)/commit() with n = rows written", s.loc())
                 else:
@@ -358,6 +369,11 @@ def _count_arg_ok(ccall, site, fi):
     # executemany(query, rows) -> len(rows)
     if isinstance(a, ast.Call) and isinstance(a.func, ast.Name) and a.func.id == "len" and len(a.args) == 1 and isinstance(a.args[0], ast.Name):
         if site.rows_var is not None and a.args[0].id == site.rows_var:
+            if getattr(site, "sliced", False):
+                # a slice holds at most len(rows) rows: counting len(rows) for it over-counts at worst (an earlier flush).
+                # Several statements over slices of the same list, counted once, may under-count: that needs the slices to be
+                # disjoint, which is arithmetic this rule does not do
+                return "one-slice"
             return True
         if getattr(site, "chunk_var", None) is not None and a.args[0].id == site.chunk_var:
             return True  # rows are written chunk by chunk and counted chunk by chunk
